@@ -2586,3 +2586,67 @@ package go_clipper2
 //@   inline
 //@   nosafety
 //@   ensures [minima-are-taken-in-list-order-each-once] result == c.minimaList[old(c.currentLocMin)] && c.currentLocMin == old(c.currentLocMin) + 1
+
+// ---------------------------------------------------------------------------------
+// Wiring of the convenience wrappers and of the floating-point engine (C07, C19, C12): which paths, path types,
+// flags, precision and operation each wrapper hands to the engine.  The engine calls themselves are opaque here;
+// the clauses are local triples around the calls (arg0, arg1, ... are the values passed).
+// ---------------------------------------------------------------------------------
+
+//@ func BooleanOpPaths64 variant wiring
+//@   props C19 C01 C07 C12
+//@   nosafety
+//@   opaque clipper64.AddPaths clipper64.Execute
+//@   assert after call:clipper64.AddPaths#0 [the-subject-set-is-added-as-closed-subject-paths] same(arg0, subject) && arg1 == Subject && !arg2
+//@   assert after call:clipper64.AddPaths#1 [the-clip-set-is-added-as-closed-clip-paths] same(arg0, clip) && arg1 == Clip && !arg2
+//@   assert after call:clipper64.Execute#0 [the-requested-operation-and-fill-rule-are-executed] arg0 == clipType && arg1 == fillRule
+
+//@ func BooleanOpPolyTree64 variant wiring
+//@   props C04 C19 C07
+//@   nosafety
+//@   opaque clipper64.AddPaths clipper64.ExecutePolyTree64
+//@   assert after call:clipper64.AddPaths#0 [the-subject-set-is-added-as-closed-subject-paths] same(arg0, subject) && arg1 == Subject && !arg2
+//@   assert after call:clipper64.AddPaths#1 [the-clip-set-is-added-as-closed-clip-paths] same(arg0, clip) && arg1 == Clip && !arg2
+//@   assert after call:clipper64.ExecutePolyTree64#0 [the-requested-operation-fills-the-returned-tree] arg0 == clipType && arg1 == fillRule && arg2 == polytree
+//@   ensures [returns-the-tree-it-filled] result != nil
+
+//@ func BooleanOpPathsD variant wiring
+//@   props C07 C19
+//@   nosafety
+//@   maypanic
+//@   opaque clipperD.AddPaths clipperD.Execute NewClipperD
+//@   assert after call:NewClipperD#0 [the-engine-is-built-for-the-requested-precision-default-2] arg0 == precOf(precisionV)
+//@   assert after call:clipperD.AddPaths#0 [the-subject-set-is-added-as-closed-subject-paths] same(arg0, subject) && arg1 == Subject && !arg2
+//@   assert after call:clipperD.AddPaths#1 [the-clip-set-is-added-as-closed-clip-paths] same(arg0, clip) && arg1 == Clip && !arg2
+//@   assert after call:clipperD.Execute#0 [the-requested-operation-and-fill-rule-are-executed] arg0 == clipType && arg1 == fillRule
+
+//@ func BooleanOpPolyTreeD variant wiring
+//@   props C07 C04 C19
+//@   nosafety
+//@   maypanic
+//@   opaque clipperD.AddPaths clipperD.ExecutePolyTreeD NewClipperD
+//@   assert after call:NewClipperD#0 [the-engine-is-built-for-the-requested-precision-default-2] arg0 == precOf(precisionV)
+//@   assert after call:clipperD.AddPaths#0 [the-subject-set-is-added-as-closed-subject-paths] same(arg0, subject) && arg1 == Subject && !arg2
+//@   assert after call:clipperD.AddPaths#1 [the-clip-set-is-added-as-closed-clip-paths] same(arg0, clip) && arg1 == Clip && !arg2
+//@   assert after call:clipperD.ExecutePolyTreeD#0 [the-requested-operation-fills-the-returned-tree] arg0 == clipType && arg1 == fillRule && arg2 == polytree
+
+//@ func clipper64.AddPaths
+//@   props C12 C07 C03
+//@   nosafety
+//@   opaque clipperBase.addPaths
+//@   assert after call:clipperBase.addPaths#0 [paths-type-and-open-flag-are-passed-on-unchanged] same(arg0, paths) && arg1 == polytype && arg2 == isOpen
+
+//@ func clipperD.AddPaths
+//@   props C07 C12 C03
+//@   nosafety
+//@   opaque clipperBase.addPaths
+//@   assert after call:clipperBase.addPaths#0 [the-integer-engine-receives-the-paths-quantised-at-the-engines-scale] same(arg0, ScalePathsDToPaths64(paths, c.scale)) && arg1 == polytype && arg2 == isOpen
+
+//@ func clipperD.ExecuteOC variant unscale
+//@   props C07
+//@   nosafety
+//@   opaque clipperBase.execute clipperBase.clearSolutionOnly
+//@   assert after call:clipperBase.execute#0 [the-integer-engine-runs-the-requested-operation] arg0 == clipType && arg1 == fillRule
+//@   loop 0 invariant [closed-paths-are-divided-by-the-scale-one-by-one] len(*solutionClosed) == _i && forall(k, 0, _i, same((*solutionClosed)[k], ScalePath64ToPathD(solClosed64[k], c.invScale)))
+//@   loop 1 invariant [open-paths-are-divided-by-the-scale-one-by-one] len(*solutionOpen) == _i && forall(k, 0, _i, same((*solutionOpen)[k], ScalePath64ToPathD(solOpen64[k], c.invScale)))
+//@   loop 1 invariant [closed-solution-complete] len(*solutionClosed) == len(solClosed64)
